@@ -1,6 +1,7 @@
 #!/bin/bash
 # usage: seedrun.sh <patch> <ID> [<ID>...]  -- apply a seeded patch to /repo, run the quick checks, revert
 patch=$1; shift
+mkdir -p /verif/target; exec 9>/verif/target/.build.lock; flock 9; export VERIF_NOLOCK=1
 cd /repo; git status --short | grep -v '^??' | head -3
 git apply "$patch" || { echo "PATCH DOES NOT APPLY"; exit 3; }
 for id in "$@"; do
